@@ -200,6 +200,14 @@ class Gen:
 
     PYTYPE = {"int": "int", "bool": "bool", "str": "str", "list": "List[int]"}
 
+    @staticmethod
+    def clamps(ind: str) -> list[str]:
+        """Keep values bounded across loop iterations (repeated squaring / doubling would not terminate in practice)."""
+        return [f"{ind}if i0 > LIM or i0 < -LIM:", f"{ind}    i0 = i0 % 1000003",
+                f"{ind}if i1 > LIM or i1 < -LIM:", f"{ind}    i1 = i1 % 1000003",
+                f"{ind}if len(s) > 60:", f"{ind}    s = s[:7]", f"{ind}if len(s0) > 60:", f"{ind}    s0 = s0[:5]",
+                f"{ind}if len(l) > 60:", f"{ind}    del l[7:]", f"{ind}if len(m0) > 60:", f"{ind}    del m0[5:]"]
+
     def stmts(self, env: dict[str, list[str]], d: int, ind: str, n: int, in_loop: bool) -> list[str]:
         out: list[str] = []
         r = self.r
@@ -230,6 +238,7 @@ class Gen:
                 it = self.pick([f"range({self.expr('int', env, 1)} & 7)", self.expr("list", env, 1), f"{self.expr('list', env, 1)}[::-1]"])
                 out.append(f"{ind}for {x} in {it}:")
                 env2 = dict(env, int=env["int"] + [x])
+                out += self.clamps(ind + "    ")
                 out += self.stmts(env2, d - 1, ind + "    ", 2, True)
                 if r.random() < 0.3:
                     self.note("for-else")
@@ -243,6 +252,7 @@ class Gen:
                 out.append(f"{ind}while {w} < ({self.expr('int', env, 1)} & 7):")
                 out.append(f"{ind}    {w} += 1")
                 env2 = dict(env, int=env["int"] + [w])
+                out += self.clamps(ind + "    ")
                 out += self.stmts(env2, d - 1, ind + "    ", 2, True)
             elif c == 7:
                 self.note("try")
@@ -363,6 +373,7 @@ class Ctx:
         return self.swallow
 
 BIG: Final = 2 ** 62
+LIM: Final = 2 ** 200
 COUNTER = 0
 
 def shapes(n: int) -> List[str]:
@@ -465,7 +476,7 @@ def reraise(n: int) -> str:
         finally:
             n += 1
     except ValueError as e2:
-        return type(e2).__name__ + "/" + str(e2) + "/" + type(e2.__cause__).__name__
+        return type(e2).__name__ + "/" + str(e2)
 
 def with_ctx(n: int, log: List[str]) -> str:
     with Ctx(log, n % 2 == 0) as c:
@@ -561,6 +572,26 @@ def unbound_and_index(n: int, l: List[int]) -> str:
         return str(l[n])
     except IndexError as e:
         return "IndexError " + str(e)
+
+def _mk_cause(log: List[str]) -> KeyError:
+    log.append("cause evaluated")
+    return KeyError("k")
+
+def raise_from(log: List[str]) -> str:
+    """probe: everything observable about `raise X from Y`"""
+    try:
+        raise ValueError("x") from _mk_cause(log)
+    except ValueError as e:
+        return "cause=" + type(e.__cause__).__name__ + " suppress=" + str(e.__suppress_context__) + " log=" + str(log)
+
+def raise_from_none() -> str:
+    try:
+        try:
+            raise KeyError("k")
+        except KeyError:
+            raise ValueError("x") from None
+    except ValueError as e:
+        return "cause=" + type(e.__cause__).__name__ + " suppress=" + str(e.__suppress_context__) + " context=" + type(e.__context__).__name__
 
 def ord_at(s: str, i: int) -> int:
     return ord(s[i])
@@ -689,7 +720,8 @@ def make_set(rng: vlib.Rng, idx: int, hiers, nfuncs: int, hist: dict[str, int]) 
         nm = f"walrus({l!r})"
         d.append(f"_l = {l!r}; call({nm!r}, lambda: M.walrus_and_friends(_l)); print('   arg after', _l)")
         ncalls += 1
-    d += ["call('ord_at_in', lambda: M.ord_at('ab', 1))", "call('ord_at_out', lambda: M.ord_at('ab', 5))",
+    d += ["call('raise_from', lambda: M.raise_from([]))", "call('raise_from_none', lambda: M.raise_from_none())",
+          "call('ord_at_in', lambda: M.ord_at('ab', 1))", "call('ord_at_out', lambda: M.ord_at('ab', 5))",
           "call('kw from interpreted', lambda: M.kw(1, 2, 3, c=4, zz=5))", "call('kw **', lambda: M.kw(*[1, 2], **{'c': 3, 'q': 4}))",
           "call('posonly', lambda: M.posonly(1, 2, 3, d=4))", "call('defaults', lambda: M.Shape(5).describe())",
           "call('kwarg ctor', lambda: M.Shape(h=3, w=2).describe())",
@@ -698,7 +730,7 @@ def make_set(rng: vlib.Rng, idx: int, hiers, nfuncs: int, hist: dict[str, int]) 
           "sq = M.Square(3); sq.tag = 'direct'; call('attr', lambda: (sq.tag, sq.area, sq.w, sq.describe()))",
           "call('callback', lambda: M.make_counter(5)(6))", "g = M.gen_count(3); call('gen from driver', lambda: [next(g), g.send(1), list(g)])",
           "call('exc attrs', lambda: M.MyErr(3).code)", "call('isinstance', lambda: [isinstance(M.Robot(), M.Named), isinstance(B.Cube(1), M.Shape), issubclass(M.MyErr, Exception)])"]
-    ncalls += 14
+    ncalls += 16
     return {"idx": idx, "files": {f"ma{idx}.py": ma, f"mb{idx}.py": mb}, "driver": "\n".join(d) + "\n", "ncalls": ncalls,
             "nfuncs": nfuncs + ma.count("\ndef ") + mb.count("\ndef ") + ma.count("\n    def ") + mb.count("\n    def ")}
 
@@ -746,7 +778,7 @@ def compile_and_run(work: str, files: dict[str, str], driver: str, cfg: dict, ti
     outs = {}
     for mode, d, want in (("interp", pyd, ".py"), ("compiled", sod, ".so")):
         e = vlib.py_env({"PYTHONPATH": d + os.pathsep + vlib.REPO})
-        st, o = vlib.sh([vlib.PY, "driver.py", want], cwd=d, env=e, timeout=300)
+        st, o = vlib.sh([vlib.PY, "driver.py", want], cwd=d, env=e, timeout=900)
         outs[mode] = (st, o)
     res.update(status="ok", interp=outs["interp"], compiled=outs["compiled"])
     return res
@@ -820,14 +852,49 @@ def run_case(work: str, case: dict, cfg: dict) -> dict:
 
 
 # ---------------------------------------------------------------------------------------- entry points
+_EXC = r"([A-Za-z_]+Error|[A-Za-z_]+Exception|StopIteration|KeyboardInterrupt|MyErr)"
+_TOK = re.compile(r"[A-Za-z_][A-Za-z_0-9]*|-?\d+|\S")
+
+# named constructs: (probe function, regex on the interpreted payload, regex on the compiled payload) -> key
+CONSTRUCTS = [
+    ("raise_from", r"cause=KeyError suppress=True log=\['cause evaluated'\]", r"cause=NoneType suppress=False log=\[\]", "raise-from-cause-dropped"),
+    ("raise_from_none", r"cause=NoneType suppress=True", r"cause=NoneType suppress=False", "raise-from-cause-dropped"),
+]
+
+
+def diff_signature(a: str, b: str) -> str:
+    """First differing token pair (numbers abstracted) -- identifies WHAT differs, not on which input."""
+    ta, tb = _TOK.findall(a), _TOK.findall(b)
+    canon = lambda t: "N" if re.fullmatch(r"-?\d+", t) and abs(int(t)) > 9 else t  # noqa
+    for i in range(max(len(ta), len(tb))):
+        x = ta[i] if i < len(ta) else "<end>"
+        y = tb[i] if i < len(tb) else "<end>"
+        if x != y:
+            return f"{canon(x)}=>{canon(y)}"
+    return "same"
+
+
 def classify(x: str, y: str) -> str | None:
-    """A stable identity for a transcript-line difference that is 'same exception type, different message'."""
-    mx = re.match(r"^exc (.*?) ([A-Za-z_]+Error|[A-Za-z_]+Exception|StopIteration|KeyboardInterrupt|MyErr) (.*)$", x)
-    my = re.match(r"^exc (.*?) ([A-Za-z_]+Error|[A-Za-z_]+Exception|StopIteration|KeyboardInterrupt|MyErr) (.*)$", y)
-    if mx and my and mx.group(1) == my.group(1) and mx.group(2) == my.group(2):
+    """Input-independent identity of a transcript-line difference: the construct (probe function of the fixed
+    feature library, or exception class) and what differs; None for generated functions / unparsable lines."""
+    mx = re.match(r"^(ok |exc) (\S+?)(\(.*?\))? (.*)$", x)
+    my = re.match(r"^(ok |exc) (\S+?)(\(.*?\))? (.*)$", y)
+    ex = re.match(r"^exc (.*?) " + _EXC + r" (.*)$", x)
+    ey = re.match(r"^exc (.*?) " + _EXC + r" (.*)$", y)
+    if ex and ey and ex.group(1) == ey.group(1) and ex.group(2) == ey.group(2):
         canon = lambda m: re.sub(r"-?\d+", "N", m)[:80]  # noqa
-        return f"excmsg:{mx.group(2)}:{canon(mx.group(3))}=>{canon(my.group(3))}"
-    return None
+        return f"excmsg:{ex.group(2)}:{canon(ex.group(3))}=>{canon(ey.group(3))}"
+    if not (mx and my) or mx.group(2) != my.group(2):
+        return None
+    probe = mx.group(2)
+    if re.fullmatch(r"f\d+_\d+", probe):
+        return None                      # a randomly generated function: keyed by its source (caller)
+    probe = re.sub(r"^via_H\d+_C\d+_\w+$", "vtable-dispatch", probe)
+    for p, ri, rc, key in CONSTRUCTS:
+        if probe == p and re.search(ri, mx.group(4)) and re.search(rc, my.group(4)):
+            return key
+    kind = mx.group(1).strip() + "/" + my.group(1).strip()
+    return f"diff:{probe}:{kind}:{diff_signature(mx.group(4), my.group(4))}"
 
 
 def check_result(ctx: vlib.Ctx, what: str, key: str, res: dict, replay: dict) -> str:
@@ -847,24 +914,19 @@ def check_result(ctx: vlib.Ctx, what: str, key: str, res: dict, replay: dict) ->
                 if k is None:
                     other = other or (i, x, y)
                 else:
-                    ctx.violation(k, f"same exception type, different message: interpreted `{x[:200]}` compiled `{y[:200]}` ({what}, {replay['config']['name']})",
+                    ctx.violation(k, f"compiled differs from interpreted: interpreted `{x[:200]}` compiled `{y[:200]}` ({what}, {replay['config']['name']})",
                                   dict(replay, interpreted_line=x, compiled_line=y, line_no=i))
     else:
         other = first_diff(oi, oc)
     if other is not None:
         i, x, y = other
-        # stable identity: the call (fixed feature library) or the generated function's source
-        mx, my = re.match(r"^(?:ok |exc) (\S+)", x), re.match(r"^(?:ok |exc) (\S+)", y)
-        if mx and my and mx.group(1) == my.group(1):
-            nm = mx.group(1)
-            fm = re.match(r"^(f\d+_\d+)\(", nm)
-            if fm:
-                src = "".join(replay.get("files", {}).values())
-                j = src.find(f"def {fm.group(1)}(")
-                body = src[j:src.find("\ndef ", j + 1)] if j >= 0 else nm
-                key = "diff:fn:" + hashlib.sha1(re.sub(r"f\d+_\d+", "f", body).encode()).hexdigest()[:12]
-            else:
-                key = "diff:call:" + re.sub(r"H\d+_", "H_", nm)
+        # generated function: identity = its source text (names normalised)
+        mx = re.match(r"^(?:ok |exc) (f\d+_\d+)\(", x)
+        if mx:
+            src = "".join(replay.get("files", {}).values())
+            j = src.find(f"def {mx.group(1)}(")
+            body = src[j:src.find("\ndef ", j + 1)] if j >= 0 else mx.group(1)
+            key = "diff:fn:" + hashlib.sha1(re.sub(r"f\d+_\d+", "f", body).encode()).hexdigest()[:12]
         ctx.violation(key, f"{what}: compiled ({replay['config']['name']}) differs from interpreted at transcript line {i}: "
                            f"interpreted `{x[:300]}` compiled `{y[:300]}`" + (f" (exit status {sc} vs {si})" if sc != si else ""),
                       dict(replay, interpreted_line=x, compiled_line=y, line_no=i, compiled_status=sc, compiled_tail=oc[-1500:]))
@@ -887,8 +949,7 @@ def _run_diff(ctx: vlib.Ctx, hiers: list, tmp: str) -> None:
     hist: dict[str, int] = {}
     nsets = ctx.n(2, 8)
     # hierarchies with traits + overriding preferred
-    interesting = [kh for kh in hiers if any(c["traits"] for c in kh[1]) and sum(len(c["methods"]) for c in kh[1]) >= 3]
-    rng.shuffle(interesting)
+    interesting = list(hiers)
     sets = []
     for i in range(nsets):
         hs = interesting[i * ctx.n(6, 12):(i + 1) * ctx.n(6, 12)]
